@@ -59,6 +59,33 @@ Theorem C01_run_until_needs_FAB_fix :
     res_events (run_interactive_old react req current s) = Some 16%nat.
 Proof. exact run_until_old_variable_step_differs. Qed.
 
+(* ---- tracked / untracked bookkeeping, initialisation, the whole life of a run ---- *)
+(* The engine builds every event index (and the clock update) from the WHOLE table - untracked simulants included -
+   whatever the class of the context, although the two classes' default get_population differ. *)
+Theorem C01_engine_population_is_full : forall c s, pop_index current c s = labels (rows s).
+Proof. exact pop_index_full. Qed.
+Theorem C01_default_population_differs_by_class :
+  exists s, get_population Plain None s <> get_population Interactive None s.
+Proof. exact default_population_differs. Qed.
+(* untracking removes a simulant from no event index *)
+Theorem C01_untracked_stay_in_event_index : forall c s ls t,
+  active_at (untrack s ls) (pop_index current c (untrack s ls)) t = active_at s (pop_index current c s) t.
+Proof. exact untracked_stay_in_index. Qed.
+(* initialize_simulants does the same under both context classes (was refuted before a70d8de6) *)
+Theorem C01_initialize_class_irrelevant : forall req n s,
+  initialize req current Interactive n s = initialize req current Plain n s.
+Proof. intros. apply initialize_class. reflexivity. Qed.
+Theorem C01_initialize_needs_FC_fix :
+  exists req s, initialize req before_FC Plain 1 s <> initialize req before_FC Interactive 1 s.
+Proof. exact initialize_class_refuted_before_FC. Qed.
+(* InteractiveContext.setup + run()  =  initialize_simulants + SimulationContext.run(): same final state, same schedule *)
+Theorem C01_whole_run_equiv : forall react req n fuel s,
+  match initialize req current Interactive n s with
+  | Ok s0 => run_interactive react req current fuel s0 | Rejected e => Rejected e | OutOfFuel => OutOfFuel end
+  = match initialize req current Plain n s with
+    | Ok s0 => run_loop (step_run react req current) fuel s0 | Rejected e => Rejected e | OutOfFuel => OutOfFuel end.
+Proof. exact whole_run_equiv. Qed.
+
 (* The two repaired defects really were violations of step equality (the theorem is breakable). *)
 Theorem C01_step_eq_needs_FB_fix :
   exists react req s, step_interactive react req before_FB s <> step_manual react req before_FB s.
@@ -117,6 +144,12 @@ Print Assumptions C01_run_until_eq_run.
 Print Assumptions C01_run_for_is_run_until.
 Print Assumptions C01_run_until_is_n_steps.
 Print Assumptions C01_run_until_needs_FAB_fix.
+Print Assumptions C01_engine_population_is_full.
+Print Assumptions C01_default_population_differs_by_class.
+Print Assumptions C01_untracked_stay_in_event_index.
+Print Assumptions C01_initialize_class_irrelevant.
+Print Assumptions C01_initialize_needs_FC_fix.
+Print Assumptions C01_whole_run_equiv.
 Print Assumptions C01_step_eq_needs_FB_fix.
 Print Assumptions C01_step_eq_needs_FC_fix.
 Print Assumptions C01_name_only.
